@@ -6,6 +6,11 @@
 -/
 import GLua.Proofs.Table
 import GLua.Proofs.TableNext
+import GLua.Proofs.TableChain
+import GLua.Proofs.TableOps
+import GLua.Proofs.TableIpairs
+import GLua.Proofs.TableKeys
+import GLua.Proofs.TableChainFixed
 
 namespace GLua.Props.C09
 open GLua GLua.Table GLua.TableSpec
@@ -150,5 +155,484 @@ example : (∀ o ∈ exampleOps, o.wf 100) ∧ len (exampleOps.foldl applyOp { m
   intro o ho
   simp only [exampleOps, List.mem_cons, List.mem_nil_iff, or_false] at ho
   rcases ho with rfl | rfl | rfl | rfl | rfl | rfl | rfl <;> simp [StoreOp.wf, isStr, arrIdx]
+
+/-! ## the whole mutating API: RawSet, RawSetInt, RawSetString, RawSetH, Append, Insert, Remove
+
+  (The read entry points `RawGet*`, `Len`, `MaxN`, `Next`, `ForEach` are pure functions of the table in the Model
+  — they cannot break the invariant; what they return is characterised by `reads_agree`, `len_is_border`,
+  `next_complete`, `foreach_complete`.) -/
+
+/-- one call of a mutating entry point of the Go table API. -/
+inductive ApiOp where
+  | store  (o : StoreOp)            -- RawSet / RawSetInt / RawSetString / RawSetH / `t[k] = v`
+  | append (v : OVal)               -- Append
+  | insert (i : Int) (v : OVal)     -- Insert
+  | remove (pos : Int)              -- Remove
+
+/-- the guard, evaluated on the table the call is made on: hash-part accessors with hash-part keys (the property's
+    proviso), and `Append`/`Insert` do not push the array part to the `MaxArrayIndex` boundary (the excluded
+    corner is the recorded finding `C09-array-past-maxarrayindex`). -/
+def ApiOp.ok (t : Tbl) : ApiOp → Prop
+  | .store o => o.wf t.mai
+  | .append v => v = none ∨ len t + 1 < t.mai
+  | .insert _ _ => t.array.length + 1 < t.mai
+  | .remove _ => True
+
+instance (mai : Nat) (o : StoreOp) : Decidable (o.wf mai) := by
+  cases o <;> simp only [StoreOp.wf] <;> infer_instance
+
+instance (t : Tbl) (o : ApiOp) : Decidable (o.ok t) := by
+  cases o <;> simp only [ApiOp.ok] <;> infer_instance
+
+def applyApi (t : Tbl) : ApiOp → Tbl
+  | .store o => applyOp t o
+  | .append v => append t v
+  | .insert i v => insert t i v
+  | .remove pos => (remove t pos).1
+
+/-- the same call on the abstract finite map.  The list helpers work on a *window*: `Append` stores at
+    `Len()+1`, `Insert`/`Remove` shift within `1 … len(array)`; the window is read off the table the call is made on. -/
+def specApi (t : Tbl) (m : SMap) : ApiOp → SMap
+  | .store o => specOp m o
+  | .append none => m
+  | .append (some x) => m.set (.int ((len t + 1 : Nat) : Int)) (some x)
+  | .insert i v => m.insertAt t.array.length i v
+  | .remove pos =>
+    if t.array.length = 0 ∨ pos > t.array.length then m
+    else m.removeAt t.array.length (if pos < 1 then (t.array.length : Int) else pos)
+
+/-- the guard along a history (decidable, evaluated call by call). -/
+def histOK (t : Tbl) : List ApiOp → Prop
+  | [] => True
+  | o :: r => o.ok t ∧ histOK (applyApi t o) r
+
+def histOK.dec : (t : Tbl) → (l : List ApiOp) → Decidable (histOK t l)
+  | _, [] => isTrue trivial
+  | t, o :: r => by unfold histOK; exact @instDecidableAnd _ _ _ (histOK.dec (applyApi t o) r)
+
+instance (t : Tbl) (l : List ApiOp) : Decidable (histOK t l) := histOK.dec t l
+
+/-- Model and abstract map side by side. -/
+def stepApi (p : Tbl × SMap) (o : ApiOp) : Tbl × SMap := (applyApi p.1 o, specApi p.1 p.2 o)
+
+theorem applyApi_mai (t : Tbl) (o : ApiOp) : (applyApi t o).mai = t.mai := by
+  cases o with
+  | store o => exact applyOp_mai t o
+  | append v => exact append_mai t v
+  | insert i v => exact insert_mai t i v
+  | remove pos => exact remove_mai t pos
+
+/-- **every mutating entry point keeps the representation invariant** (all five structures: array below
+    `MaxArrayIndex`; `strdict` only strings, `dict` no string and no array key; `keys` lists every key ever put
+    into a map, once; `k2i` is its inverse; each map holds a key once). -/
+theorem applyApi_inv (t : Tbl) (o : ApiOp) (hI : Inv t ∧ InvAL t) (hw : o.ok t) :
+    Inv (applyApi t o) ∧ InvAL (applyApi t o) := by
+  obtain ⟨hi, ha⟩ := hI
+  cases o with
+  | store o =>
+    cases o with
+    | set k v => exact ⟨inv_rawSet t k v hi, invAL_rawSet t k v ha⟩
+    | setInt i v =>
+      exact ⟨by simp only [applyApi, applyOp, rawSetInt_eq_rawSet]; exact inv_rawSet t _ v hi, invAL_rawSetInt t i v ha⟩
+    | setStr k v =>
+      simp only [ApiOp.ok, StoreOp.wf] at hw
+      exact ⟨by simp only [applyApi, applyOp, rawSetString_eq_rawSet t k v hw]; exact inv_rawSet t k v hi,
+        invAL_rawSetString t k v ha⟩
+    | setH k v =>
+      simp only [ApiOp.ok, StoreOp.wf] at hw
+      exact ⟨by simp only [applyApi, applyOp, rawSetH_eq_rawSet t k v hw]; exact inv_rawSet t k v hi,
+        invAL_rawSetH t k v ha⟩
+  | append v => exact ⟨inv_append t hi v hw, invAL_append t v ha⟩
+  | insert i v => exact ⟨inv_insert t hi i v hw, invAL_insert t i v ha⟩
+  | remove pos => exact ⟨inv_remove t hi pos, invAL_remove t pos ha⟩
+
+/-- **every mutating entry point is the corresponding transformer of the finite map** `Key → Option Val`. -/
+theorem applyApi_refines (t : Tbl) (o : ApiOp) (hi : Inv t) (hm : 0 < t.mai) (hw : o.ok t) (k : Val) :
+    rawGet (applyApi t o) k = specApi t (rawGet t) o k := by
+  cases o with
+  | store o => exact applyOp_refines t o hw k
+  | append v =>
+    cases v with
+    | none => rfl
+    | some x =>
+      have hg : len t + 1 < t.mai := by
+        rcases hw with hw | hw
+        · cases hw
+        · exact hw
+      simp only [applyApi, specApi, append_eq_rawSet t x hg, rawGet_rawSet]; rfl
+  | insert i v => exact rawGet_insert t hi i v hw k
+  | remove pos =>
+    obtain ⟨h1, h2⟩ := rawGet_remove t hi hm pos
+    simp only [applyApi, specApi]
+    by_cases hc : t.array.length = 0 ∨ pos > t.array.length
+    · rw [if_pos hc, (h1 hc).1]
+    · rw [if_neg hc]; exact (h2 hc).2 k
+
+/-- `Remove` returns the old value of the position it removes. -/
+theorem remove_returns_old (t : Tbl) (hi : Inv t) (hm : 0 < t.mai) (pos : Int) :
+    (remove t pos).2 =
+      if t.array.length = 0 ∨ pos > t.array.length then none
+      else rawGet t (.int (if pos < 1 then (t.array.length : Int) else pos)) := by
+  obtain ⟨h1, h2⟩ := rawGet_remove t hi hm pos
+  by_cases hc : t.array.length = 0 ∨ pos > t.array.length
+  · rw [if_pos hc, (h1 hc).2]
+  · rw [if_neg hc]; exact (h2 hc).1
+
+/-- **api_history_from** — from *any* table satisfying the invariant that agrees with an abstract map `m`, *every* history
+    of calls of the mutating API that meets the guard call by call leads to a table that satisfies the invariant over
+    all five structures and reads, for every key, what the abstract finite map holds after the same history. -/
+theorem api_history_from (ops : List ApiOp) :
+    ∀ (p : Tbl × SMap), 0 < p.1.mai → Inv p.1 → InvAL p.1 → (∀ k, rawGet p.1 k = p.2 k) → histOK p.1 ops →
+      Inv (ops.foldl stepApi p).1 ∧ InvAL (ops.foldl stepApi p).1 ∧
+        ∀ k, rawGet (ops.foldl stepApi p).1 k = (ops.foldl stepApi p).2 k := by
+  induction ops with
+  | nil => intro p _ h1 h2 h3 _; exact ⟨h1, h2, h3⟩
+  | cons o r ih =>
+    intro p hp h1 h2 h3 hh
+    simp only [List.foldl_cons]
+    obtain ⟨hw, hr⟩ := hh
+    obtain ⟨i1, i2⟩ := applyApi_inv p.1 o ⟨h1, h2⟩ hw
+    apply ih (stepApi p o) (by simp only [stepApi, applyApi_mai]; exact hp) i1 i2 ?_ hr
+    intro k
+    simp only [stepApi]
+    rw [applyApi_refines p.1 o h1 hp hw k]
+    have : rawGet p.1 = p.2 := funext h3
+    rw [this]
+
+/-- **api_history** — the same from a fresh table (`newLTable`, any `MaxArrayIndex ≥ 1`, array part allocated or not). -/
+theorem api_history (mai : Nat) (hm : 0 < mai) (alloc : Bool) (ops : List ApiOp)
+    (h : histOK { mai := mai, alloc := alloc } ops) :
+    let r := ops.foldl stepApi ({ mai := mai, alloc := alloc }, SMap.empty)
+    Inv r.1 ∧ InvAL r.1 ∧ ∀ k, rawGet r.1 k = r.2 k :=
+  api_history_from ops _ hm (Table.inv_alloc _ Table.inv_empty alloc) ⟨by simp [alKeys], by simp [alKeys]⟩
+    (fun k => by
+      show rawGet { mai := mai, alloc := alloc } k = SMap.empty k
+      unfold rawGet SMap.empty
+      split
+      · simp
+      · split <;> rfl) h
+
+/-- **foreach_complete** — `ForEach` hands the callback exactly the present pairs, each key once. -/
+theorem foreach_complete (t : Tbl) (h : Inv t) (ha : InvAL t) (hm : 0 < t.mai) :
+    ((forEach t).map (·.1)).Nodup ∧ ∀ k v, (k, v) ∈ forEach t ↔ rawGet t k = some v :=
+  Table.forEach_complete t h ha hm
+
+/-- **foreach_delivery_is_current** — `ForEach` whose callback stores into the table (Model: `feStep`, Go's `range` over the
+    live array slice and maps): every admissible delivery `(k, v)` hands the callback a field that is present *now* with
+    exactly the value it has *now*, and a hash-part key is never delivered twice (`seenH` = the keys delivered out of the
+    maps; array keys are delivered in strictly increasing index order by construction of `feStep`).  (A snapshot taken before the first callback — seeded change
+    C09-m10 — violates this as soon as a callback clears or overwrites a field not yet delivered.) -/
+theorem foreach_delivery_is_current (t : Tbl) (h : Inv t) (hm : 0 < t.mai) (s s' : FEState) (k v : Val)
+    (hal : s.alen ≤ t.array.length) (hs : feStep t s k v = some s') :
+    rawGet t k = some v ∧ s'.seen = s.seen ++ [k] ∧ s'.alen = s.alen ∧
+      (arrIdx t.mai k = none → k ∉ s.seenH ∧ s'.seenH = s.seenH ++ [k]) :=
+  Table.feStep_current t h hm s s' k v hal hs
+
+/-- non-vacuity: on `{10, 20, a=1}` after the callback of key 1 has cleared key 2, delivering `a` is admissible, delivering
+    the stale `(2, 20)` is not, and the iteration may end after `a` but not before. -/
+def feExample : Bool :=
+  let t0 : Tbl := [StoreOp.set (.int 1) (some (.int 10)), .set (.int 2) (some (.int 20)), .set (.str "61") (some (.int 1))].foldl
+    applyOp { mai := 100 }
+  let t1 := rawSet t0 (.int 2) none
+  match feStep t0 (feBegin t0) (.int 1) (.int 10) with
+  | some s1 =>
+    (feStep t1 s1 (.int 2) (.int 20)).isNone &&
+      (match feStep t1 s1 (.str "61") (.int 1) with
+       | some s2 => feEnd t1 s2 && !feEnd t1 s1
+       | none => false)
+  | none => false
+
+example : feExample = true := by decide
+
+/-- `Append(v)` stores at `Len()+1`, and `Len()` is a border: `Append` extends the list by one. -/
+theorem append_extends_border (t : Tbl) (x : Val) (h : t.array.length + 1 < t.mai) :
+    isBorder (rawGet t) (len t) ∧
+      ∀ k, rawGet (append t (some x)) k = if k = .int ((len t + 1 : Nat) : Int) then some x else rawGet t k := by
+  refine ⟨Table.len_is_border t h, fun k => ?_⟩
+  have := lastNonNil_le t.array
+  rw [append_eq_rawSet t x (by unfold len; omega), rawGet_rawSet]
+
+/-! non-vacuity: a history through every mutating entry point (growth, hole, Insert in the middle, Remove from
+    the middle and of the last element, Append after a trailing nil) meets the guard; the Model reads what the
+    abstract map holds. -/
+def apiExample : List ApiOp :=
+  [.store (.set (.int 1) (some (.int 10))), .append (some (.int 20)), .store (.setInt 4 (some (.int 40))),
+   .insert 2 (some (.int 15)), .store (.setStr (.str "61") (some (.bool true))), .remove 1,
+   .store (.setH (.flt 4602678819172646912) (some (.int 5))), .store (.set (.int 4) none), .append (some (.int 99)),
+   .remove 0, .insert 0 (some (.int 7)), .insert 9 (some (.int 8))]
+
+example : histOK { mai := 100 } apiExample ∧
+    (let r := apiExample.foldl stepApi ({ mai := 100 }, SMap.empty)
+     [1, 2, 3, 4, 5, 9, 0].map (fun i => r.2 (.int i)) =
+       [some (.int 15), some (.int 20), some (.int 99), none, none, some (.int 8), some (.int 7)]
+     ∧ len r.1 = 9 ∧ r.1.array.length = 9) := by
+  decide
+
+/-! ## ipairs and the border -/
+
+/-- **ipairs_visits_prefix** — on every table satisfying the invariant the `ipairs` loop (iterating `ipairsaux`, i.e.
+    `RawGetInt(i+1)`, from control value 0) terminates after at most `len(array) + len(dict) + 1` calls and visits
+    exactly `1 … n` in order, each with its value, where `n+1` is the first nil; that `n` is a border. -/
+theorem ipairs_visits_prefix (t : Tbl) (h : Inv t) (hm : 0 < t.mai) :
+    ∃ (n : Nat) (l : List (Int × Val)), ipairsRun t (t.array.length + t.dict.length + 2) 0 = some l ∧
+      l.length = n ∧
+      (∀ j < n, ∃ v, rawGet t (.int ((j + 1 : Nat) : Int)) = some v ∧ l[j]? = some (((j + 1 : Nat) : Int), v)) ∧
+      rawGet t (.int ((n + 1 : Nat) : Int)) = none ∧ isBorder (rawGet t) n := by
+  obtain ⟨n, hn, hpres, hnil⟩ := first_nil_exists t h hm
+  obtain ⟨l, hl, hlen, hall⟩ := ipairsRun_from t n hpres hnil n 0 (t.array.length + t.dict.length + 2) (by omega) (by omega)
+  refine ⟨n, l, by simpa using hl, hlen, ?_, hnil, ?_⟩
+  · intro j hj
+    obtain ⟨v, h1, h2⟩ := hall j hj
+    have e : 0 + j + 1 = j + 1 := by omega
+    rw [e] at h1 h2
+    exact ⟨v, h1, h2⟩
+  · unfold isBorder
+    by_cases h0 : n = 0
+    · left; subst h0; exact ⟨rfl, hnil⟩
+    · right
+      refine ⟨by omega, hpres n (by omega) (by omega), ?_⟩
+      have e : ((n : Int) + 1) = ((n + 1 : Nat) : Int) := by omega
+      rw [e]; exact hnil
+
+/-- **len_is_border_exact** — under the invariant `#t` is a border *if and only if* it is not the case that the
+    array part is full up to `MaxArrayIndex-1` and `t[MaxArrayIndex]` (a hash-part key) is present: the guard of
+    `len_is_border` weakened to the exact complement of the finding class `C09-border-at-maxarrayindex`. -/
+theorem len_is_border_exact (t : Tbl) (h : Inv t) (hm : 0 < t.mai) :
+    isBorder (rawGet t) (len t) ↔ ¬ (len t + 1 = t.mai ∧ rawGet t (.int (t.mai : Int)) ≠ none) :=
+  Table.len_is_border_iff t h hm
+
+/-- `MaxN` (table.maxn over the array part) and `Len` are the same function of the table. -/
+theorem maxn_eq_len (t : Tbl) : maxN t = len t := rfl
+
+example : ∃ t : Tbl, Inv t ∧ 0 < t.mai ∧ (len t + 1 = t.mai ∧ rawGet t (.int (t.mai : Int)) ≠ none) :=
+  ⟨rawSet (rawSet { mai := 6 } (.int 6) (some (.bool false))) (.int 5) (some (.int 44)),
+    inv_rawSet _ _ _ (inv_rawSet _ _ _ inv_empty), by decide, by decide, by decide⟩
+
+example : ipairsRun (apiExample.foldl stepApi ({ mai := 100 }, SMap.empty)).1 20 0
+    = some [(1, .int 15), (2, .int 20), (3, .int 99)] := by decide
+
+/-! ## key normalisation
+
+  `numKey bits` (Model/Table.lean) is the canonical key of the float64 with that bit pattern — `.int z` for a finite
+  integral value, `.flt bits` for a non-integral one or ±Inf, nothing for NaN — and `goIsArrayKey mai bits` is
+  `utils.go: isArrayKey` computed as the Go code does (through `int64(v)`).  `f64scaled bits` is the exact value of a
+  finite double times `2^1074`, an integer.  Both are tied to the real code by the `numkey` correspondence pass. -/
+
+/-- **number_keys_compare_by_value** — two finite numbers are the same table key iff they have the same value
+    (`1` and `1.0` — any two spellings — and `+0`/`-0` are one key; different values are different keys). -/
+theorem number_keys_compare_by_value (b1 b2 : Nat) (hb1 : b1 < 2 ^ 64) (hb2 : b2 < 2 ^ 64)
+    (h1 : f64exp b1 ≠ 2047) (h2 : f64exp b2 ≠ 2047) :
+    numKey b1 = numKey b2 ↔ f64scaled b1 = f64scaled b2 :=
+  numKey_eq_iff_value b1 b2 hb1 hb2 h1 h2
+
+/-- a number is keyed by the integer `z` exactly when it is finite and its value is `z`. -/
+theorem integral_number_key (bits : Nat) (z : Int) :
+    numKey bits = some (.int z) ↔ f64exp bits ≠ 2047 ∧ f64scaled bits = z * ((2 ^ 1074 : Nat) : Int) := by
+  constructor
+  · intro h
+    unfold numKey at h
+    split at h
+    · cases h
+    · cases hz : f64int? bits with
+      | none => rw [hz] at h; simp at h
+      | some w =>
+        rw [hz] at h
+        simp only [Option.some.injEq, Val.int.injEq] at h
+        subst h
+        exact ⟨f64int?_finite bits w hz, f64int?_value bits w hz⟩
+  · rintro ⟨hf, hv⟩
+    unfold numKey
+    rw [notNaN_of_finite bits hf, f64int?_complete bits z hf hv]; rfl
+
+/-- **array_routing_matches_go** — a number takes the array path of the Go code (`isArrayKey`) exactly when its
+    canonical key is an array index of the Model: integral value `0 < v < MaxArrayIndex`. -/
+theorem array_routing_matches_go (mai : Nat) (hmai : (mai : Int) ≤ 2 ^ 63) (bits : Nat) :
+    goIsArrayKey mai bits = true ↔ ∃ k n, numKey bits = some k ∧ arrIdx mai k = some n :=
+  goIsArrayKey_iff mai hmai bits
+
+/-- a number is never the same key as a string (nor a boolean, nor a table). -/
+theorem number_key_never_string (bits : Nat) (k : Val) (h : numKey bits = some k) :
+    isStr k = false ∧ (∀ s, k ≠ .str s) ∧ (∀ b, k ≠ .bool b) ∧ (∀ n, k ≠ .ref n) := by
+  rcases numKey_is_number bits k h with ⟨z, rfl⟩ | rfl <;> simp [isStr]
+
+/-- a Lua-level store under a NaN key (any of the 2^53-2 NaN bit patterns) is an error; under any other number it is
+    the raw store under the canonical key. -/
+theorem lua_store_number_key (t : Tbl) (bits : Nat) (v : OVal) :
+    (isNaNBits bits = true → ∃ e, luaSetNum t bits v = .error e) ∧
+    (isNaNBits bits = false → ∃ k, numKey bits = some k ∧ luaSetNum t bits v = .ok (rawSet t k v)) := by
+  unfold luaSetNum numKey
+  constructor
+  · intro h; rw [h]; exact ⟨_, rfl⟩
+  · intro h; rw [h]
+    cases f64int? bits with
+    | none => exact ⟨_, rfl, rfl⟩
+    | some z => exact ⟨_, rfl, rfl⟩
+
+/-! non-vacuity: 1.0, -0.0 / +0.0, 0.5, 2^53, 2^63, -2^63, the smallest subnormal, +Inf, a quiet and a signalling NaN;
+    routing at the default `MaxArrayIndex`. -/
+example : numKey 4607182418800017408 = some (.int 1) ∧ numKey (2 ^ 63) = some (.int 0) ∧ numKey 0 = some (.int 0) ∧
+    numKey 4602678819172646912 = some (.flt 4602678819172646912) ∧
+    numKey 4845873199050653696 = some (.int 9007199254740992) ∧
+    numKey 4890909195324358656 = some (.int 9223372036854775808) ∧
+    numKey 14114281232179134464 = some (.int (-9223372036854775808)) ∧
+    numKey 1 = some (.flt 1) ∧ numKey 9218868437227405312 = some (.flt 9218868437227405312) ∧
+    numKey 9221120237041090560 = none ∧ numKey 9218868437227405313 = none := by decide +kernel
+
+example : goIsArrayKey 67108864 4607182418800017408 = true ∧ goIsArrayKey 67108864 0 = false ∧
+    goIsArrayKey 67108864 4602678819172646912 = false ∧ goIsArrayKey 67108864 4890909195324358656 = false ∧
+    goIsArrayKey 67108864 4724276008977432576 = true ∧ goIsArrayKey 67108864 4724276009111650304 = false := by
+  decide +kernel
+
+/-! ## traversal under modification
+
+  `chain sched t` (Proofs/TableChain.lean) is the `Next` chain from nil on `t` in which, after the `i`-th call
+  has returned key `k` on the table `t'`, the stores `sched i k t'` are performed before `Next(k)` is called
+  again (the schedule is adaptive: it sees the step number, the key just returned and the whole table).
+  A `Visit` records the table at the moment of the call and the pair returned.  `storesExisting t' l` is the
+  property's proviso, checked store by store: each store of `l` clears (`none`) or overwrites (`some _`) a
+  field that exists at that moment. -/
+
+/-- **next_chain_under_modification** — for *every* table satisfying the representation invariant and *every*
+    (adaptive) interleaving of the `Next` chain from nil with stores that clear or overwrite existing fields:
+    (a) the chain terminates without panic after at most `len(array) + len(keys)` visits;
+    (c) no key is returned twice;
+    (d) every key is returned with the value it has at the moment of that `Next` call, and was a key of the
+        table the traversal started on;
+    (b) every key still present when the chain ends has been returned (since stores only hit existing
+        fields, "present at the end" = "present throughout"). -/
+theorem next_chain_under_modification (sched : Nat → Val → Tbl → List Store)
+    (hs : ∀ i k t', storesExisting t' (sched i k t') = true) (t : Tbl) (h : Inv t) (hm : 0 < t.mai) :
+    ∃ vs tf, chain sched t = .ok (vs, tf) ∧
+      vs.length ≤ t.array.length + t.keys.length ∧
+      (vs.map (·.k)).Nodup ∧
+      (∀ x ∈ vs, rawGet x.t x.k = some x.v ∧ rawGet t x.k ≠ none) ∧
+      (∀ k, rawGet tf k ≠ none → k ∈ vs.map (·.k)) := by
+  obtain ⟨vs, tf, hc, hlen, hnd, hval, hall⟩ :=
+    chain_complete sched (fun i k t' hI => storesExisting_OK t' hI _ (hs i k t')) t h hm
+  obtain ⟨_, hmono⟩ := chainAux_mono sched hs _ _ _ _ _ _ hc
+  refine ⟨vs, tf, hc, hlen, hnd, ?_, ?_⟩
+  · intro x hx
+    refine ⟨hval x hx, (hmono x hx x.k).2 ?_⟩
+    rw [hval x hx]; simp
+  · intro k hk
+    exact hall k hk (fun x hx => (hmono x hx k).1 hk)
+
+/-- the same for the weaker proviso "the key has a slot" (`storesOK`: a positive integer within the current
+    array part, or a key that has been in the hash part at some time — i.e. clearing, overwriting **and
+    re-inserting a cleared field**): termination, no repetition, current values, and every key that is present
+    at each `Next` call of the chain (the last one included) is returned. -/
+theorem next_chain_slot_stores (sched : Nat → Val → Tbl → List Store)
+    (hs : ∀ i k (t' : Tbl), Table.Inv t' → storesOK t' (sched i k t') = true) (t : Tbl) (h : Inv t) (hm : 0 < t.mai) :
+    ∃ vs tf, chain sched t = .ok (vs, tf) ∧
+      vs.length ≤ t.array.length + t.keys.length ∧
+      (vs.map (·.k)).Nodup ∧
+      (∀ x ∈ vs, rawGet x.t x.k = some x.v) ∧
+      (∀ k, rawGet tf k ≠ none → (∀ x ∈ vs, rawGet x.t k ≠ none) → k ∈ vs.map (·.k)) :=
+  chain_complete sched hs t h hm
+
+/-- with re-insertion allowed, "(b) every key present at the end has been returned" is *false*: a field cleared
+    before the chain reaches its slot and stored again after the chain has passed it is present at the end
+    and was never returned (Lua leaves assignment to a non-existent field during a traversal undefined; the
+    property text only claims clear/overwrite of existing fields).  Witness: `{a=1,b=2,c=3}`; after `a` clear
+    `b`; after `c` store `b=5`. -/
+def next_chain_slot_stores_end_full : Prop :=
+  ∀ (sched : Nat → Val → Tbl → List Store), (∀ i k (t' : Tbl), Table.Inv t' → storesOK t' (sched i k t') = true) →
+    ∀ t : Tbl, Inv t → 0 < t.mai → ∀ vs tf, chain sched t = .ok (vs, tf) →
+      ∀ k, rawGet tf k ≠ none → k ∈ vs.map (·.k)
+
+def reinsertTbl : Tbl :=
+  [StoreOp.set (.str "61") (some (.int 1)), .set (.str "62") (some (.int 2)), .set (.str "63") (some (.int 3))].foldl
+    applyOp { mai := 100 }
+
+def reinsertSched : Nat → Val → Tbl → List Store := fun i _ t =>
+  keepSlot t (if i = 0 then [(.str "62", none)] else if i = 1 then [(.str "62", some (.int 5))] else [])
+
+theorem next_chain_slot_stores_end_full_fails : ¬ next_chain_slot_stores_end_full := by
+  intro H
+  have hI : Inv reinsertTbl := inv_reachable 100 _ (by intro o ho; cases o <;> trivial)
+  have := H reinsertSched (fun i k t' _ => storesOK_keepSlot t' _) reinsertTbl hI (by decide)
+  obtain ⟨vs, tf, hc, -⟩ := next_chain_slot_stores reinsertSched (fun i k t' _ => storesOK_keepSlot t' _)
+    reinsertTbl hI (by decide)
+  have h1 := this vs tf hc (.str "62")
+  have e : chain reinsertSched reinsertTbl = .ok (vs, tf) → rawGet tf (.str "62") ≠ none ∧ Val.str "62" ∉ vs.map (·.k) := by
+    intro hc
+    have hv : (match chain reinsertSched reinsertTbl with
+        | .ok (vs, tf) => (vs.map (·.k), rawGet tf (.str "62"))
+        | .error _ => ([], none)) = ([.str "61", .str "63"], some (.int 5)) := by decide
+    rw [hc] at hv
+    simp only [Prod.mk.injEq] at hv
+    rw [hv.1, hv.2]; simp
+  exact (e hc).2 (h1 (e hc).1)
+
+/-! ### the list helper `Remove` during a traversal (finding `C09-next-after-array-shrink`)
+
+  `table.remove(t)` / `LTable.Remove` only clear or overwrite existing fields as far as the finite map is
+  concerned (manual §5.5: the last element is erased, the others shift down), so by the manual a traversal may
+  go on after it.  But `Remove` *shrinks* the array part, and `Next(k)` for an integer `k > len(array)` fails
+  the test `index == len(tb.array)`, falls through to `for i := tb.k2i[key] + 1 …` with `k2i[key]` = 0 (absent
+  from the map) and so starts at `keys[1]`: the first key of the hash part is skipped. -/
+
+/-- the full statement: after the first `Next` and one `Remove(pos)`, continuing the chain returns every other
+    key that is still present. -/
+def next_chain_with_remove_full : Prop :=
+  ∀ (t : Tbl), Table.Inv t → 0 < t.mai → ∀ (pos : Int) (k v : Val), next t none = .ok (some (k, v)) →
+    ∀ l, traverseAux (remove t pos).1 (t.array.length + t.keys.length + 2) (some k) = .ok l →
+      ∀ k', k' ≠ k → rawGet (remove t pos).1 k' ≠ none → k' ∈ l.map (·.1)
+
+def removeTbl : Tbl :=
+  [StoreOp.set (.int 1) (some (.int 10)), .set (.str "61") (some (.int 1)), .set (.str "62") (some (.int 2))].foldl
+    applyOp { mai := 100 }
+
+/-- witness `t = {10, a=1, b=2}; k = next(t); table.remove(t); next(t,k) …` never returns `a`
+    (checked on the real code: `for k in pairs(t) do if k==1 then table.remove(t) end end` visits 1, b). -/
+theorem next_chain_with_remove_full_fails : ¬ next_chain_with_remove_full := by
+  intro H
+  have hI : Inv removeTbl := inv_reachable 100 _ (by intro o ho; cases o <;> trivial)
+  have := H removeTbl hI (by decide) 1 (.int 1) (.int 10) rfl [(.str "62", .int 2)] rfl
+    (.str "61") (by decide) (by decide)
+  revert this; decide
+
+/-- **with the proposed one-token repair of `Next`** (`fixes/C09-next-after-array-shrink.diff`, Model: `nextFixed`) the
+    traversal theorem extends to `Remove`: for every table satisfying the invariant and every (adaptive) interleaving of
+    the chain from nil with stores to slot keys **and `Remove(pos)` calls**, the chain terminates without panic, returns
+    no key twice, returns each key with its value at that moment, and returns every key that is present at each call
+    of the chain. -/
+theorem next_fixed_chain_with_remove (sched : Nat → Val → Tbl → List Mod)
+    (hs : ∀ i k (t' : Tbl), Table.Inv t' → modsOK t' (sched i k t') = true) (t : Tbl) (h : Inv t) (hm : 0 < t.mai) :
+    ∃ vs tf, chainFixed sched t = .ok (vs, tf) ∧
+      vs.length ≤ t.array.length + t.keys.length ∧
+      (vs.map (·.k)).Nodup ∧
+      (∀ x ∈ vs, rawGet x.t x.k = some x.v) ∧
+      (∀ k, rawGet tf k ≠ none → (∀ x ∈ vs, rawGet x.t k ≠ none) → k ∈ vs.map (·.k)) :=
+  chainFixed_complete sched hs t h hm
+
+/-- the repair changes nothing where the unchanged `Next` is right: from nil and from any key that has a slot. -/
+theorem next_fixed_agrees (t : Tbl) (h : Inv t) (hm : 0 < t.mai) (cur : OVal)
+    (hc : cur = none ∨ ∃ (i : Nat) (k : Val), (slots t)[i]? = some k ∧ cur = some k) : nextFixed t cur = next t cur :=
+  nextFixed_eq_next t h hm cur hc
+
+/-- on the witness of the finding the repaired `Next` returns `a` after `table.remove(t)`. -/
+example : nextFixed (remove removeTbl 1).1 (some (.int 1)) = .ok (some (.str "61", .int 1)) ∧
+    next (remove removeTbl 1).1 (some (.int 1)) = .ok (some (.str "62", .int 2)) := ⟨rfl, rfl⟩
+
+/-! non-vacuity of the traversal theorems: a table with an array hole, string and float keys; the schedule
+    clears a field the chain has not reached yet, overwrites another one, and clears the field just returned. -/
+def chainTbl : Tbl :=
+  [StoreOp.set (.int 1) (some (.int 10)), .setInt 3 (some (.int 30)), .setStr (.str "61") (some (.bool true)),
+   .setStr (.str "62") (some (.int 7)), .setH (.flt 4602678819172646912) (some (.int 5))].foldl applyOp { mai := 100 }
+
+def chainSched : Nat → Val → Tbl → List Store := fun i _ t =>
+  keepExisting t (if i = 0 then [(.str "62", none), (.int 3, some (.int 99)), (.int 1, none), (.str "7a", some (.int 0))] else [])
+
+example : (∀ i k t', storesExisting t' (chainSched i k t') = true) ∧ Inv chainTbl ∧
+    (match chain chainSched chainTbl with
+      | .ok (vs, tf) => (vs.map (fun x => (x.k, x.v)), rawGet tf (.str "7a"))
+      | .error _ => ([], none)) =
+      ([(.int 1, .int 10), (.int 3, .int 99), (.str "61", .bool true), (.flt 4602678819172646912, .int 5)], none) := by
+  refine ⟨fun i k t' => storesExisting_keepExisting t' _, ?_, by decide⟩
+  exact inv_reachable 100 _ (by
+    intro o ho
+    simp only [List.mem_cons, List.mem_nil_iff, or_false] at ho
+    rcases ho with rfl | rfl | rfl | rfl | rfl <;> simp [StoreOp.wf, isStr, arrIdx])
 
 end GLua.Props.C09
